@@ -1019,7 +1019,10 @@ def generate(ctx, batch, go_flags=None, extra_languages=(), formats=FORMATS):
                 u["path"] = path      # the reference validator has to load it from disk (cross-file references)
                 u["aux_text"] = {f: t for f, t in render_openapi(schema, pkg)[1].items()}
             yp = os.path.join(inputs, pkg + ".yaml")
-            open(yp, "w").write(pipeline_yaml(fmt, path, pkg, go_flags, extra_languages, aux))
+            ytext = pipeline_yaml(fmt, path, pkg, go_flags, extra_languages, aux)
+            if getattr(batch, "yaml_hook", None):       # optional per-unit addition to the pipeline YAML (compiler passes: python_common)
+                ytext = batch.yaml_hook(sid, fmt, pkg, ytext)
+            open(yp, "w").write(ytext)
             jobs.append({"id": pkg, "yaml": yp, "root": gen})
     # shard over processes: one cog pipeline per job, isolated from each other's failures
     shards = [jobs[i::NSHARDS] for i in range(NSHARDS)]
